@@ -76,8 +76,85 @@ func testSkipped(testID, runOnly string) bool {
 		}
 	}
 
-	matched, _ := regexp.MatchString(runOnly, testID)
-	return !matched
+	return !runMatches(testName, runOnly)
+}
+
+// runMatches reports whether `go test -run runOnly` selects the test with the given name.
+//
+// Like the test runner it splits the pattern by unbracketed '|' into alternatives and
+// by unbracketed '/' into elements; element i has to match the i-th element of the test
+// name (a sub-test is only selected together with its parents).
+func runMatches(testName, runOnly string) bool {
+	elems := strings.Split(testName, "/")
+
+	for _, alternative := range splitRunPattern(runOnly) {
+		matched := true
+		for i, elem := range elems {
+			if i >= len(alternative) {
+				break
+			}
+
+			// the test runner rewrites spaces in names and patterns to underscores
+			pattern := strings.ReplaceAll(alternative[i], " ", "_")
+			if ok, _ := regexp.MatchString(pattern, elem); !ok {
+				matched = false
+				break
+			}
+		}
+
+		if matched {
+			return true
+		}
+	}
+
+	return false
+}
+
+// splitRunPattern splits a -run pattern the way the testing package does.
+func splitRunPattern(s string) [][]string {
+	alternatives := [][]string{}
+	current := []string{}
+	brackets, parens := 0, 0
+
+	for i := 0; i < len(s); {
+		switch s[i] {
+		case '[':
+			brackets++
+		case ']':
+			if brackets--; brackets < 0 { // an unmatched ']' is legal
+				brackets = 0
+			}
+		case '(':
+			if brackets == 0 {
+				parens++
+			}
+		case ')':
+			if brackets == 0 {
+				parens--
+			}
+		case '\\':
+			i++
+		case '/':
+			if brackets == 0 && parens == 0 {
+				current = append(current, s[:i])
+				s = s[i+1:]
+				i = 0
+				continue
+			}
+		case '|':
+			if brackets == 0 && parens == 0 {
+				current = append(current, s[:i])
+				s = s[i+1:]
+				i = 0
+				alternatives = append(alternatives, current)
+				current = []string{}
+				continue
+			}
+		}
+		i++
+	}
+
+	return append(alternatives, append(current, s))
 }
 
 func isFileSkipped(dir, filename, runOnly string) bool {
